@@ -143,3 +143,33 @@ Proof.
   intros H. vm_compute in H.
   repeat match goal with H : _ /\ _ |- _ => destruct H end; discriminate.
 Qed.
+
+(* the guard as a computable function (extracted: the matcher of F-C15-ampm evaluates it) *)
+Fixpoint clash_b (fuel : nat) (cy : Z) (st : pst) : bool :=
+  if (length (p_l st) <=? p_i st)%nat then false else
+  match fuel with
+  | O => false
+  | S f => ampm_clash st ||
+           match parse_step false cy st with Ok st' => clash_b f cy st' | Err _ => false end
+  end.
+
+Definition strict_clash (cy : Z) (s : list Z) : bool :=
+  clash_b (length (timelex s)) cy (mkSt (timelex s) O res_empty ymd_empty []).
+
+Lemma clash_b_no_clash cy : forall fuel st, clash_b fuel cy st = false -> no_clash fuel cy st.
+Proof.
+  induction fuel as [|f IH]; intros st H; cbn [clash_b no_clash] in *;
+    destruct (length (p_l st) <=? p_i st)%nat; auto.
+  apply orb_false_elim in H. destruct H as [H1 H2]. split; [exact H1|].
+  destruct (parse_step false cy st); auto.
+Qed.
+
+Lemma no_clash_clash_b cy : forall fuel st, no_clash fuel cy st -> clash_b fuel cy st = false.
+Proof.
+  induction fuel as [|f IH]; intros st H; cbn [clash_b no_clash] in *;
+    destruct (length (p_l st) <=? p_i st)%nat; auto.
+  destruct H as [H1 H2]. rewrite H1. cbn [orb]. destruct (parse_step false cy st); auto.
+Qed.
+
+Lemma strict_clash_iff cy s : strict_clash cy s = false <-> strict_no_clash cy s.
+Proof. unfold strict_clash, strict_no_clash. split; [apply clash_b_no_clash | apply no_clash_clash_b]. Qed.
